@@ -74,9 +74,12 @@ fn take_last_error() -> Option<Box<dyn Error>> {
 #[no_mangle]
 pub unsafe extern "C" fn last_error_message() -> *const c_char {
     match take_last_error() {
-        Some(err) => CString::new(err.to_string().as_bytes())
-            .expect("Invalid Str")
-            .into_raw(),
+        Some(err) => {
+            // A C string can't hold interior NUL bytes (the message may quote invalid input): drop them.
+            let mut msg = err.to_string().into_bytes();
+            msg.retain(|byte| *byte != 0);
+            CString::new(msg).unwrap_or_default().into_raw()
+        }
         None => std::ptr::null(),
     }
 }
